@@ -552,6 +552,41 @@ func ruleC08R5(r *Run) {
 		r.Check("StateMachineActions#result", ret.Pos(), theMap != nil && p.resolve(p.res(ret, 0)) == p.resolve(theMap), "returns the map it filled", "returns another map")
 		r.Check("StateMachineActions#invariant-installed", ret.Pos(), invInstall != nil && dominates(invInstall, ret), "the invariant is installed under \"\" on every path to the return", "StateMachineActions can return without having installed sm."+mname+" under \"\": Repeat then runs the actions without ever checking the invariant")
 	}
+	// an adapter closure installed inside the method loop captures what belongs to its own iteration: a captured
+	// variable declared outside the loop and assigned inside it is shared by all adapters, which then all call the
+	// method assigned last
+	nCl := 0
+	for _, b := range p.body(fn) {
+		for _, in := range b.Instrs {
+			mc, ok := in.(*ssa.MakeClosure)
+			if !ok {
+				continue
+			}
+			l := innermostLoop(mc)
+			if l == nil {
+				continue
+			}
+			nCl++
+			for k, bnd := range mc.Bindings {
+				al, isAlloc := bnd.(*ssa.Alloc)
+				if !isAlloc || l.Body[al.Block()] {
+					continue // a value, or a variable of this iteration
+				}
+				written := false
+				for _, ref := range *al.Referrers() {
+					if st, ok := ref.(*ssa.Store); ok && st.Addr == ssa.Value(al) && l.Body[st.Block()] {
+						written = true
+					}
+				}
+				name := "?"
+				if f, ok := mc.Fn.(*ssa.Function); ok && k < len(f.FreeVars) {
+					name = f.FreeVars[k].Name()
+				}
+				r.Check("StateMachineActions#adapter-captures-own-method."+name, mc.Fn.Pos(), !written, "captured variable "+name+" is not reassigned by later iterations", "the adapter closure captures "+name+", which is declared outside the method loop and assigned in every iteration: all adapters share it and run the method assigned last (or crash on the nil left by a method of another shape) — Repeat executes an action that is not the one drawn")
+			}
+		}
+	}
+	r.Floor("adapter closures built in the method loop of StateMachineActions", nCl, 1)
 	// the TB adapter forwards its own T
 	if ad := p.Fn("StateMachineActions$1"); ad != nil {
 		ok := false
